@@ -4,7 +4,7 @@ patch="$1"; shift
 git -C /repo apply "$patch" || { echo "patch does not apply"; exit 3; }
 for p in "$@"; do
   VERIF_NO_REPLAY=${VERIF_NO_REPLAY-1} /verif/check "$p" 2>&1 | tail -6
-  echo "exit($p)=$?"
+  echo "exit($p)=${PIPESTATUS[0]}"
 done
 git -C /repo checkout -- .
 git -C /repo status --short | head -3
